@@ -953,6 +953,12 @@ def emit_inst(p, out, decls, phis, curlab):
             elif nm.startswith('llvm.smax') or nm.startswith('llvm.smin'):
                 w = resolve(args[0][0]).w
                 call = '((int%d_t)%s %s (int%d_t)%s ? %s : %s)' % (w, args[0][1], '>' if 'smax' in nm else '<', w, args[1][1], args[0][1], args[1][1])
+            elif nm.startswith('llvm.fshl') or nm.startswith('llvm.fshr'):
+                w = resolve(args[0][0]).w; ct = ctype(args[0][0]); a, b, c = args[0][1], args[1][1], args[2][1]
+                if nm.startswith('llvm.fshl'): call = '((%s %% %d) ? (%s)((%s << (%s %% %d)) | (%s >> (%d - (%s %% %d)))) : %s)' % (c, w, ct, a, c, w, b, w, c, w, a)
+                else: call = '((%s %% %d) ? (%s)((%s << (%d - (%s %% %d))) | (%s >> (%s %% %d))) : %s)' % (c, w, ct, a, w, c, w, b, c, w, b)
+            elif nm.startswith('llvm.bswap') and resolve(args[0][0]).w == 32:
+                call = '__builtin_bswap32(%s)' % args[0][1]
             elif nm.startswith('llvm.abs'):
                 w = resolve(args[0][0]).w
                 call = '((int%d_t)%s < 0 ? (%s)(0 - %s) : %s)' % (w, args[0][1], ctype(args[0][0]), args[0][1], args[0][1])
